@@ -502,8 +502,8 @@ class Ctx:
         m = self.solver.model()
         rec["inputs"] = [self.eval_input(m, k, t) for (k, t) in self.inputs]
         rec["observations"] = [[k, self.eval_input(m, k2, t)] for (k, k2, t) in self.observations]
-        rec["hash_dependent"] = bool(self.hashes)
-        if status == "panic" and self.hashes:
+        rec["hash_dependent"] = any(not d.is_concrete() for _, d in self.hashes)
+        if status == "panic" and rec["hash_dependent"]:
             # the real SHA-256 will not reproduce the model's digests: offer alternative inputs
             alts = []
             terms = []
